@@ -1,14 +1,24 @@
 #!/bin/bash
-# tools/try_seed.sh <patch.diff> <prop> [runs]   apply a seeded change to /repo, run the check, undo it
+# tools/try_seed.sh <patch.diff> <prop> [runs]
+# Run a check against a seeded change WITHOUT touching /repo: the patch is applied in a scratch git worktree of
+# /repo's HEAD (/tmp/seedrepo) and a shadow copy of /verif/sim (/tmp/seedsim, path deps rewritten to the scratch
+# worktree, own target dir) is built and run. (Equivalent to `git -C /repo apply` + check + `git checkout -- .`,
+# but safe while other checks are running against /repo.)
 set -u
-PATCH="$1"; PROP="$2"; RUNS="${3:-}"
-cd /repo || exit 2
-if [ -n "$(git status --porcelain --untracked-files=no)" ]; then echo "/repo not clean"; exit 2; fi
+PATCH="$(readlink -f "$1")"; PROP="$2"; RUNS="${3:-}"
+export CARGO_NET_OFFLINE=true RUST_BACKTRACE=0
+if [ ! -d /tmp/seedrepo ]; then git -C /repo worktree add -q --detach /tmp/seedrepo HEAD || exit 2; fi
+cd /tmp/seedrepo || exit 2
+git checkout -q --detach "$(git -C /repo rev-parse HEAD)" 2>/dev/null
+git checkout -q -- . ; git clean -qfd
 git apply "$PATCH" || { echo "patch does not apply"; exit 2; }
-cd /verif/sim && CARGO_NET_OFFLINE=true cargo build --release --offline >/verif/sim/build.log 2>&1 || { echo BUILD FAILED; grep -E '^error' -A8 /verif/sim/build.log | head -30; git -C /repo checkout -- .; exit 2; }
-mkdir -p /tmp/seedrun
+mkdir -p /tmp/seedsim
+rsync -a --delete --exclude target /verif/sim/ /tmp/seedsim/
+sed -i 's#path = "/repo/#path = "/tmp/seedrepo/#g' /tmp/seedsim/Cargo.toml
+cd /tmp/seedsim && cargo build --release --offline >/tmp/seedsim/build.log 2>&1 || { echo BUILD FAILED; grep -E '^error' -A8 /tmp/seedsim/build.log | head -30; git -C /tmp/seedrepo checkout -q -- .; exit 2; }
+mkdir -p /tmp/seedrun; cp /verif/known_findings.json /tmp/seedrun/
 if [ -n "$RUNS" ]; then EXTRA="--runs $RUNS"; else EXTRA=""; fi
 ./target/release/cwsim check "$PROP" quick --dir /tmp/seedrun $EXTRA | grep -vE "^KNOWN-FINDING" | tail -12
 RC=${PIPESTATUS[0]}
-git -C /repo checkout -- .
+git -C /tmp/seedrepo checkout -q -- . ; git -C /tmp/seedrepo clean -qfd
 echo "exit=$RC"
